@@ -1,2 +1,210 @@
-(* C13 — on-disk sparse transposition and reshaping preserve the matrix. (theorems follow) *)
-From Coq Require Import List.
+(* C13 — on-disk sparse transposition and reshaping preserve the matrix.
+   Property theorems only: each is closed by `exact <lemma>`.
+   Model: Model/Transpose.v (transpose_sparse_matrix_on_disk and its parallel
+   version), Model/Sparse.v (reshaping). "CSC" = the input: ptr has one entry per
+   column + 1, idx holds the row of each stored entry. *)
+From Coq Require Import List Arith ZArith Bool Lia.
+From CTM Require Import Base.Sx Model.Sparse Model.Transpose
+  Proofs.SparseP Proofs.TransposeP Proofs.TransposeFillP Proofs.TransposeSpecP Proofs.TransposePatternP Proofs.TransposeParP Proofs.SparseReshapeP.
+Import ListNotations.
+
+(* ---- count pass (_calculate_csr_indptr): for every load chunk size >= 1 the pointer
+   array is 0 followed by the prefix sums of the exact number of entries of each output
+   row of the slice, and n_non_zero is the number of entries of the slice - in
+   particular neither depends on the chunk size *)
+Theorem c13_count_pass : forall es n sl Lc,
+  1 <= Lc ->
+  calc_indptr es n sl Lc =
+  (0 :: cumsum_from 0 (map (fun r => length (out_row (apply_slice sl es) r)) (seq 0 n)),
+   length (apply_slice sl es)).
+Proof. exact calc_indptr_spec. Qed.
+Print Assumptions c13_count_pass.
+
+(* ---- transpose_sparse_matrix_on_disk.  For every well-formed CSC input (pointer
+   array from 0, monotone, ending at the number of stored entries; row indices below
+   indices_max), with or without a value array, every index sub-range, every
+   elements_at_a_time E (even 0), every load chunk size L >= 1 and Lc >= 1 (the code
+   enforces >= 100), provided a value array comes with at least one stored entry in
+   the slice (otherwise the code raises: c13_transpose_no_value_rejects, finding F2):
+   the function returns (the fuel indices_max+1 of the `while True` block loop
+   suffices) and
+   - the blocks of output rows it processed tile [0, n_out) without gap or overlap;
+   - the output pointer array starts at 0, is monotone, has n_out+1 entries and ends at
+     the number of stored entries, which is the number of input entries in the slice;
+   - inside every output row the column indices are sorted, strictly (hence unique)
+     when no input column stores a row twice;
+   - every stored value sits at its transposed position: cell (out, r, j) =
+     cell (in, j, lo + r), i.e. the dense view of the output is the transpose of the
+     dense view of the input (rows lo..hi of it). *)
+Theorem c13_transpose_exact : forall m n_major use_data indices_max sl E L Lc,
+  wf_comp m indices_max -> length (ptr m) = S n_major ->
+  (use_data = true -> length (dat m) = length (idx m)) ->
+  1 <= L -> 1 <= Lc ->
+  (use_data = true -> length (apply_slice sl (all_entries m use_data)) <> 0) ->
+  exists t, transpose m use_data indices_max sl E L Lc = Ok t /\
+    let out := t_out t in
+    let n_out := n_out_of indices_max sl in
+    let lo := match sl with Some s => fst s | None => 0 end in
+    out = transpose_spec m use_data indices_max sl /\
+    chained 0 (t_blocks t) n_out /\
+    hd 1 (ptr out) = 0 /\ mono (ptr out) /\ length (ptr out) = S n_out /\
+    last (ptr out) 0 = length (idx out) /\
+    length (idx out) = length (apply_slice sl (all_entries m use_data)) /\
+    (forall r, r < n_out ->
+       let seg := slice (idx out) (nth r (ptr out) 0) (nth (S r) (ptr out) 0) in
+       mono seg /\ (no_dup_minor m -> strictly_increasing seg = true)) /\
+    (use_data = true ->
+       length (dat out) = length (idx out) /\
+       (forall r j, r < n_out -> j < n_major -> cell out r j = cell m j (lo + r)) /\
+       dense_of out n_out n_major =
+       map (fun r => map (fun j => cell m j (lo + r)) (seq 0 n_major)) (seq 0 n_out)).
+Proof. exact transpose_full. Qed.
+Print Assumptions c13_transpose_exact.
+
+(* the stored pattern, with or without a value array: (r, j) is stored in the output
+   iff (j, lo + r) is stored in the input *)
+Theorem c13_transpose_pattern : forall m n_minor use_data indices_max sl r j,
+  wf_comp m n_minor -> (sl = None -> Forall (fun x => x < indices_max) (idx m)) ->
+  r < n_out_of indices_max sl -> S j < length (ptr m) ->
+  stored (transpose_spec m use_data indices_max sl) r j =
+  stored m j (match sl with Some s => fst s | None => 0 end + r).
+Proof. exact spec_stored. Qed.
+Print Assumptions c13_transpose_pattern.
+
+(* the same equation without any well-formedness of the pointer array: the function
+   computes transpose_spec whenever it is given chunk sizes >= 1, consistent array
+   lengths and (without a slice) row indices below indices_max *)
+Theorem c13_transpose_is_spec : forall m use_data indices_max sl E L Lc,
+  1 <= L -> 1 <= Lc ->
+  (use_data = true -> length (dat m) = length (idx m)) ->
+  (sl = None -> Forall (fun r => r < indices_max) (idx m)) ->
+  (use_data = true -> length (apply_slice sl (all_entries m use_data)) <> 0) ->
+  exists t, transpose m use_data indices_max sl E L Lc = Ok t /\
+            t_out t = transpose_spec m use_data indices_max sl /\
+            chained 0 (t_blocks t) (n_out_of indices_max sl).
+Proof. exact transpose_exact. Qed.
+Print Assumptions c13_transpose_is_spec.
+
+(* the block loop on its own: from any block boundary r0 with the rows before r0
+   written, n_out - r0 units of fuel suffice, whatever E is *)
+Theorem c13_block_loop_terminates : forall chunks sl E n fuel r0 nxt,
+  let Es := apply_slice sl (concat chunks) in
+  esorted (concat chunks) ->
+  r0 <= n -> n - r0 <= fuel -> length nxt = S n ->
+  (forall r, r0 <= r < n -> nth r nxt 0 = off Es r) ->
+  exists bl,
+    fill_blocks fuel chunks sl E (0 :: cumsum_from 0 (cnts Es n)) nxt r0
+                (map e_major (spec_entries Es r0) ++ repeat 0 (off Es n - off Es r0))
+                (map e_val (spec_entries Es r0) ++ repeat 0%Z (off Es n - off Es r0))
+    = Ok (map e_major (spec_entries Es n), map e_val (spec_entries Es n), bl) /\
+    chained r0 bl n.
+Proof. exact fill_blocks_spec. Qed.
+Print Assumptions c13_block_loop_terminates.
+
+(* the model's rendering of finding F2: a value array and no stored entry in the
+   (slice of the) input -> ValueError, never a wrong file *)
+Theorem c13_transpose_no_value_rejects : forall m indices_max sl E L Lc,
+  1 <= L -> 1 <= Lc -> length (dat m) = length (idx m) ->
+  (sl = None -> Forall (fun r => r < indices_max) (idx m)) ->
+  length (apply_slice sl (all_entries m true)) = 0 ->
+  transpose m true indices_max sl E L Lc = Err EValue.
+Proof. exact transpose_no_value_rejects. Qed.
+Print Assumptions c13_transpose_no_value_rejects.
+
+(* ---- _transpose_sparse_matrix_on_disk_v2 (n_processors workers, each transposing a
+   slice of ceil(indices_max / n_processors) rows, pieces joined in range order with
+   pointer offsets): whenever it returns, it returns exactly what the serial function
+   computes on the whole range (c13_transpose_exact: out = transpose_spec ... None, so
+   every clause proved there holds for it), for every worker count and every budget.
+   When it does not return, that is one of the recorded findings F2w / F4 / F4z / F4m
+   (an empty slice with a value array; chunk shapes of the joined datasets). *)
+Theorem c13_parallel_concat : forall m use_data indices_max n_proc E L Lc out,
+  1 <= L -> 1 <= Lc -> (use_data = true -> length (dat m) = length (idx m)) ->
+  Forall (fun r => r < indices_max) (idx m) ->
+  transpose_v2 m use_data indices_max n_proc E L Lc = Ok out ->
+  out = transpose_spec m use_data indices_max None.
+Proof. exact transpose_v2_exact. Qed.
+Print Assumptions c13_parallel_concat.
+
+(* ---- _get_slices_for_copy: in every dimension the hyperslab bounds start at 0, are
+   contiguous and non-empty, end at the extent, and cutting along them and gluing gives
+   the data back: the hyperslabs tile the dataset exactly once *)
+Theorem c13_slices_partition : forall shape per_dim,
+  Forall2 (fun n chs =>
+             chained 0 chs n /\
+             forall (A : Type) (l : list A), length l = n ->
+               concat (map (fun ch => slice l (fst ch) (snd ch)) chs) = l)
+          shape (slices_for_copy shape per_dim).
+Proof. exact slices_partition. Qed.
+Print Assumptions c13_slices_partition.
+
+(* copy_h5_excluding_data on 1-d and (rectangular) 2-d datasets copies the data *)
+Theorem c13_copy_h5_1d : forall (l : list Z) max_elements, copy_h5_1d l max_elements = l.
+Proof. exact (@copy_h5_1d_exact Z). Qed.
+Print Assumptions c13_copy_h5_1d.
+
+Theorem c13_copy_h5_2d : forall (d : dense) nr nc per_dim,
+  length d = nr -> Forall (fun row => length row = nc) d -> copy_h5_2d d nr nc per_dim = d.
+Proof. exact copy_h5_2d_exact. Qed.
+Print Assumptions c13_copy_h5_2d.
+
+(* ---- copy_layer_to_x: whenever the chunked copy is accepted it is the identity *)
+Theorem c13_copy_layer_sparse : forall (l : list Z) chunks out,
+  copy_array l chunks = Ok out -> out = l.
+Proof. exact (@copy_array_exact Z). Qed.
+Print Assumptions c13_copy_layer_sparse.
+
+Theorem c13_copy_layer_dense : forall (d : dense) nr nc chunks out,
+  length d = nr -> Forall (fun row => length row = nc) d ->
+  copy_dense d nr nc chunks = Ok out -> out = d.
+Proof. exact copy_dense_exact. Qed.
+Print Assumptions c13_copy_layer_dense.
+
+(* NOT YET PROVED (statements kept; the correspondence check covers them by testing):
+   c13_shuffle_rows    : wf_csr m nr nc -> Permutation order (seq 0 nr) ->
+       exists out, shuffle_rows m order = Ok out /\
+       dense_of out nr nc = map (fun r => nth r (dense_of m nr nc) []) order
+   c13_subset_columns  : the same for subset_columns with the sorted chosen columns
+   c13_amalgamate      : amalgamate_csr pieces n = Ok out ->
+       dense_of out = concatenation of the dense views of the pieces *)
+
+(* ---- non-vacuity: a 3 x 4 matrix (indices_max = 3 rows, 4 columns) in CSC form with
+   an empty column and an empty row satisfies the hypotheses, and the function run
+   with E = 2, L = 2, Lc = 1 returns the transpose in two blocks *)
+Definition c13_ex : comp :=
+  {| ptr := [0; 2; 2; 3; 5]; idx := [0; 2; 2; 0; 2]; dat := [5; 6; 7; 8; 9]%Z |}.
+Example c13_example_wf :
+  wf_comp c13_ex 3 /\ length (ptr c13_ex) = 5 /\ length (dat c13_ex) = length (idx c13_ex) /\
+  no_dup_minor c13_ex /\ length (apply_slice None (all_entries c13_ex true)) <> 0.
+Proof.
+  split; [|split; [reflexivity | split; [reflexivity | split]]].
+  - unfold wf_comp, c13_ex; cbn [ptr idx dat hd last length mono].
+    split; [reflexivity | split; [reflexivity | split]].
+    + lia.
+    + repeat (apply Forall_cons; [lia|]). apply Forall_nil.
+  - intros j Hj. unfold c13_ex in *; cbn [ptr idx dat length] in *.
+    assert (D : j = 0 \/ j = 1 \/ j = 2 \/ j = 3) by lia.
+    destruct D as [ -> | [ -> | [ -> | -> ] ] ]; vm_compute;
+      repeat (apply NoDup_cons; [cbn [In]; lia|]); apply NoDup_nil.
+  - vm_compute. discriminate.
+Qed.
+Example c13_example_run :
+  match transpose c13_ex true 3 None 2 2 1 with
+  | Ok t => t_out t = {| ptr := [0; 2; 2; 5]; idx := [0; 3; 0; 2; 3]; dat := [5; 8; 6; 7; 9]%Z |} /\
+            t_blocks t = [(0, 1); (1, 3)]
+  | Err _ => False
+  end /\
+  dense_of c13_ex 4 3 = [[5; 0; 6]; [0; 0; 0]; [0; 0; 7]; [8; 0; 9]]%Z.
+Proof. vm_compute. repeat split; reflexivity. Qed.
+Example c13_example_slice :
+  match transpose c13_ex true 3 (Some (1, 3)) 100 100 100 with
+  | Ok t => t_out t = {| ptr := [0; 0; 3]; idx := [0; 2; 3]; dat := [6; 7; 9]%Z |}
+  | Err _ => False
+  end.
+Proof. vm_compute. reflexivity. Qed.
+Example c13_example_slices : slices_for_copy [5; 3] 2 = [[(0, 2); (2, 4); (4, 5)]; [(0, 2); (2, 3)]].
+Proof. vm_compute. reflexivity. Qed.
+Example c13_example_parallel :
+  transpose_v2 c13_ex true 3 2 2 2 1 =
+  Ok {| ptr := [0; 2; 2; 5]; idx := [0; 3; 0; 2; 3]; dat := [5; 8; 6; 7; 9]%Z |}.
+Proof. vm_compute. reflexivity. Qed.
